@@ -169,6 +169,33 @@ theorem capabilities_namespace_invariant (ns : Path) (rules : List Rule) (p : Pa
   unfold capabilityList
   rw [selectPerms_inNs ns rules .list p hns hns0 hp hp0]
 
+/-- **root_policy_decides_on_qualified_path.** The root policy of a namespace decides on the namespace-QUALIFIED path,
+like every other rule: however a path below the namespace is addressed — in the namespace with the relative path, or
+from an ancestor with the qualified one — the answer (a request's decision and the capability report alike, both go
+through this test) is the same. -/
+theorem root_policy_decides_on_qualified_path (rootNs ns1 p1 ns2 p2 : Path) (h : ns1 ++ p1 = ns2 ++ p2) :
+    rootAclAllows rootNs ns1 p1 = rootAclAllows rootNs ns2 p2 := by
+  have key : ∀ ns p, rootAclAllows rootNs ns p = rootNs.isPrefixOf (ns ++ p) := by
+    intro ns p
+    unfold rootAclAllows
+    cases hp : rootNs.isPrefixOf ns with
+    | false => simp
+    | true =>
+      simp only [Bool.true_or]
+      rw [List.isPrefixOf_iff_prefix] at hp
+      symm
+      rw [List.isPrefixOf_iff_prefix]
+      exact List.IsPrefix.trans hp (List.prefix_append ns p)
+  rw [key, key, h]
+
+/-- **finding F101 (repaired)**: with the context's namespace alone deciding, the root token of `team/` is refused
+(and reported `deny`) for `team/secret/a` asked from the root namespace while the same path asked inside `team/` is
+granted. -/
+theorem root_policy_ctx_only_cex :
+    ∃ (rootNs ns1 p1 ns2 p2 : Path), ns1 ++ p1 = ns2 ++ p2 ∧
+      rootAclAllowsCtxOnly rootNs ns1 p1 ≠ rootAclAllowsCtxOnly rootNs ns2 p2 :=
+  ⟨cs "team/", cs "team/", cs "secret/a", [], cs "team/secret/a", by decide, by decide⟩
+
 /-! ### "the decision is independent of the order in which policies are attached": the control group of a pattern -/
 section CGOrder
 open Obao.ControlGroup
